@@ -2642,6 +2642,17 @@ int32 matrixValidateCertsExt(psPool_t *pool, psX509Cert_t *subjectCerts,
  */
             return rc;
         }
+        else if (rc == PS_CERT_AUTH_FAIL_EXTENSION ||
+                 rc == PS_CERT_AUTH_FAIL_AUTHKEY)
+        {
+/*
+            This CA did issue the certificate (name and signature matched)
+            but a date, keyUsage or authorityKeyId test failed.  That is
+            final: authStatus and authFailFlags of the subject cert describe
+            the problem and must not be overwritten by trying other CAs.
+ */
+            return rc;
+        }
         ic = ic->next;
     }
 /*
